@@ -9,11 +9,11 @@ variable {T D : Type}
 
 /-- **C04_fixpoint**: with `(d, p)` the result of inference on `x`, inference on `d` returns `d`
 itself (every hop is an identity relation) and ends at the same type -/
-theorem C04_fixpoint (ts : TS T D) {I : D → Prop} (wf : ts.WF I) (root : T) (hroot : ∀ t, IdPath ts root t)
+theorem C04_fixpoint (ts : TS T D) {I : D → Prop} (wf : ts.WF I) (root : T) (N : T → Prop) (hN : Nodes ts N root)
     (f : Nat) (hf : ts.h root < f) (x : D) (hI : I x) (hx : ts.contains root x = true) :
     let res := ptraverse ts.succ f root x
     (ptraverse ts.succ f root res.1).1 = res.1 ∧
     plast root (ptraverse ts.succ f root res.1).2 = plast root res.2 :=
-  infer_fixpoint ts wf root hroot f hf x hI hx
+  infer_fixpoint ts wf root N hN f hf x hI hx
 
 end V.C04
